@@ -2,6 +2,8 @@ import ThriftVerif.Lib.PegLemmas
 import ThriftVerif.Lib.WalkerLemmas
 import ThriftVerif.Lib.PegTree
 import ThriftVerif.Lib.WalkerSafe
+import ThriftVerif.Lib.WalkerLayout
+import ThriftVerif.Lib.PegTokens
 import ThriftVerif.Generated.C03Grammar
 /-
   C03 — the parser is total and the AST is faithful to the source text.  Property theorems only
@@ -158,6 +160,47 @@ example : Plain 34 (txt "a'b\"c\\td") := by decide
 example : unescLoop 34 (esc 34 (txt "\\\"")) = txt "\\\\\"" := by decide
 -- content ending in `\\` : the final character is copied twice
 example : unescLoop 34 (txt "a\\\\") = txt "a\\\\\\" := by decide
+
+/-! ## layout (partial: per token rule; the composition over whole documents is covered by the oracle only)
+
+FULL STATEMENT (not proved): for every document `d` and layouts `ℓ₁ ℓ₂` (a Skip-string at every token boundary, a
+separator `,` `;` or none at every list position, a quote kind per literal, decimal spellings of integers),
+`parseString (render d ℓ₁)` and `parseString (render d ℓ₂)` are equal up to ReservedComments.  It is FALSE for exponent
+doubles and non-decimal field ids (witnesses below). -/
+
+/-- The value of a literal does not depend on the quote kind it is written with. -/
+theorem quote_kind_independent (s : List Nat) (h1 : Plain 34 s) (h2 : Plain 39 s) :
+    unescLoop 34 (esc 34 s) = unescLoop 39 (esc 39 s) := by
+  rw [literal_unescape 34 (.inl rfl) s h1, literal_unescape 39 (.inr rfl) s h2]
+
+/-- `Skip` absorbs any run of blanks (space, tab, vertical tab, CR, LF in any mix): on `ws ++ rest` it consumes exactly
+`ws` when `rest` is empty or starts with a character that is neither blank nor `/` nor `#`.  (`Peg.Runs` is the
+fuel-free view of the matcher; by `Runs.unique` it is the result `p.Parse()` computes.) -/
+theorem skip_absorbs_ws (ws rest : List Nat) (pos : Nat) (hws : ∀ c ∈ ws, PegTokens.isWs c) (hrest : PegTokens.StopsSkip rest) :
+    ∃ t, Runs G (.call Generated.C03.R.Skip) pos (ws ++ rest) (.ok (pos + ws.length) rest t) :=
+  PegTokens.skip_absorbs_ws ws rest pos hws hrest
+
+example : PegTokens.StopsSkip (txt "struct") ∧ ∀ c ∈ txt " \t\r\n ", PegTokens.isWs c := by decide
+
+/-- A ListSeparator node (`,` and `;` alike: the walker never looks inside) is invisible to every loop of the walker. -/
+theorem list_separator_ignored (buf : Array Nat) (fuel b e : Nat) (up next : T) :
+    (∀ acc, annLoop ids buf acc (.node ids.rListSeparator b e up next) = annLoop ids buf acc next) ∧
+    (∀ f, fieldLoop ids buf fuel f (.node ids.rListSeparator b e up next) = fieldLoop ids buf fuel f next) ∧
+    (∀ post acc, fieldsLoop ids buf fuel post acc (.node ids.rListSeparator b e up next) = fieldsLoop ids buf fuel post acc next) ∧
+    (∀ f, functionLoop ids buf fuel f (.node ids.rListSeparator b e up next) = functionLoop ids buf fuel f next) ∧
+    (∀ acc, functionsLoop ids buf fuel acc (.node ids.rListSeparator b e up next) = functionsLoop ids buf fuel acc next) ∧
+    constListLoop ids buf (fuel + 1) (.node ids.rListSeparator b e up next) = constListLoop ids buf fuel next ∧
+    constMapLoop ids buf (fuel + 1) (.node ids.rListSeparator b e up next) = constMapLoop ids buf fuel next :=
+  ⟨fun acc => annLoop_sep buf acc b e up next, fun f => fieldLoop_sep buf fuel f b e up next,
+   fun post acc => fieldsLoop_sep buf fuel post acc b e up next, fun f => functionLoop_sep buf fuel f b e up next,
+   fun acc => functionsLoop_sep buf fuel acc b e up next, constListLoop_sep buf fuel b e up next,
+   constMapLoop_sep buf fuel b e up next⟩
+
+/-- Skip and SkipLine nodes are invisible to the field loop and to the document loop. -/
+theorem skip_nodes_ignored (buf : Array Nat) (fuel r b e : Nat) (up next : T) (h : r = ids.rSkip ∨ r = ids.rSkipLine) :
+    (∀ f, fieldLoop ids buf fuel f (.node r b e up next) = fieldLoop ids buf fuel f next) ∧
+    (∀ t, docLoop ids buf fuel t (.node r b e up next) = docLoop ids buf fuel t next) :=
+  ⟨fun f => fieldLoop_skip buf fuel f r b e up next h, fun t => docLoop_skip buf fuel t r b e up next h⟩
 
 /-! ## witnesses on the whole pipeline (decode → match → prune → walk) for the spellings the theorems exclude -/
 
